@@ -90,7 +90,7 @@ theorem propagate_fft_energy_aux (fs : List (Fld ℂ)) (W0 W1 : ℕ) (dx0 dx1 du
   have hsample : ∀ i j : ℕ, i < s0 → j < s1 →
       (wavefrontField 1 [g] so.1 so.2).get i j = fieldAt fs (1 / (K : ℝ)) (1 / (K : ℝ)) ((i : ℤ) - (s0 : ℤ) / 2) ((j : ℤ) - (s1 : ℤ) / 2) := by
     intro i j hi hj
-    rw [C09.fft_eq_propagate_dft fs W0 W1 dx0 dx1 du0 du1 wl z os shape scratch lam S0 S0 so g h hiso hp hz hos hS
+    rw [C09.fft_eq_propagate_dft fs W0 W1 dx0 dx1 du0 du1 wl z os shape scratch lam S0 S0 so g h (Or.inl hiso) hp (hiso ▸ hp) hz hos hS
       ⟨by omega, hW.1, by omega, hW.2⟩ hfit hpos hso i j ⟨by omega, by omega⟩ ⟨by omega, by omega⟩, hα]
     simp only
     rw [propagateDft_canvas_get fs _ _ so.1 so.2 hso i j ⟨by omega, by omega⟩ ⟨by omega, by omega⟩, hK, hs0, hs1]
